@@ -680,7 +680,7 @@ static void judge(Transfer &t, const Case &c, const std::string &replay)
              (t.sink.lossy() && t.rj->error() == QXmppTransferJob::FileAccessError));
         if (t.rSuccess()) oracleFail("C19:fault-but-success", replay);
         else if (!reported) {
-            // the block (or the answer to it) vanished and nothing follows: before repo commit afd7dc9 the library had no
+            // the block (or the answer to it) vanished and nothing follows: before repo commit 72eab57 the library had no
             // timeout and both jobs waited for ever (key kept for that regression)
             const bool silent = t.faultKind == "lose" || t.faultKind == "wsender";
             oracleFail(silent ? "C19:lost-stanza-hangs-forever" : "C19:fault-without-error-report", replay);
@@ -1061,9 +1061,9 @@ int main(int argc, char **argv)
         stat("wrap_cases");
     }
     // (a2) witnesses of findings fixed in the library, kept so that they stay fixed:
-    //      a lost block with nothing following (afd7dc9: the inactivity timer ends both jobs with ProtocolError — the harness
+    //      a lost block with nothing following (72eab57: the inactivity timer ends both jobs with ProtocolError — the harness
     //      fires the jobs' QTimer children, see the `timeout` op), a short-writing device with hash but no size announced
-    //      (705738b: FileAccessError), accept(filePath) read back inside finished() and /dev/full (e785bd1: section 7)
+    //      (675e9c1: FileAccessError), accept(filePath) read back inside finished() and /dev/full (38165f0: section 7)
     runCase({ 2, 4096, true, "hex", QByteArray("hello"), { "deliver", "deliver", "lose" } });
     runCase({ 2, 4096, true, "hex", QByteArray("hello"), { "deliver", "deliver", "wsender 2" } });
     {
